@@ -13,7 +13,9 @@
       `stringstream istr(src); [!]([g &&] pure_data(istr >> x1 >> … >> xn))` (`PD.pureData` after the extractions; for one
       double this is `PD.numberOk`), `Cond.fails src chain` = `!(istr >> x1 >> … >> xn)` = failbit after the extractions;
     * what stays an ORACLE bit (`o : List Bool` of the event, consumed in evaluation order, exhausted = true):
-      every `Cond.other` and the conjunct `g` of a `pure` condition (`g3->model != nullptr`, `dim>0 && width<dim`).
+      every `Cond.other` and the conjunct `g` of a `pure` condition; `Cond.lit k neg` = `[!]deg2gon(text_buffer, …)` / `[!]IsFloat(b, e)` /
+      `[!]IsInteger(b, e)` over the whole buffer is computed with `Lit.deg2gonAccepts` / `Lit.isFloat` / `Lit.isInteger`;
+      oracle: (`g3->model != nullptr`, `dim>0 && width<dim`).
 
   `erase` forgets the descriptions; `cexec` also returns the truth values of the conditions it evaluated (`tr`), and
   `exec (erase p)` fed with them takes the same path (`Lemmas/DataParserValues.lean`), so the run on real text
@@ -61,6 +63,12 @@ def chainRun (chain : List XKind) (text : List Char) : PD.Stream :=
 /-- `pure_data(istr >> x1 >> … >> xn)` on `text` -/
 def pureOk (chain : List XKind) (text : List Char) : Bool := PD.pureData (chainRun chain text)
 
+/-- the recognisers of gon2deg.cpp / intfloat.h (Model/Literals.lean) on the whole `text_buffer` -/
+def litOk : LitKind → List Char → Bool
+  | .deg2gon, s => Lit.deg2gonAccepts s
+  | .isFloat, s => Lit.isFloat s
+  | .isInteger, s => Lit.isInteger s
+
 /-- next oracle bit (exhausted = true) -/
 def pop : List Bool → Bool × List Bool
   | [] => (true, [])
@@ -70,6 +78,7 @@ def pop : List Bool → Bool × List Bool
 def condBit (c : Cond) (piece buf : List Char) (o : List Bool) : Bool × List Bool :=
   match c with
   | .other => pop o
+  | .lit k neg => (litOk k buf != neg, o)
   | .fails src chain =>
       ((chainRun chain (match src with | .buffer => buf | .piece => piece)).fail, o)
   | .pure src chain g neg =>
@@ -87,24 +96,26 @@ structure CR where
   o : List Bool
   /-- truth values of the `ifData` conditions evaluated, in evaluation order -/
   tr : List Bool
+  /-- the condition evaluated LAST (`none`: no condition was evaluated) -/
+  last : Option Cond
 
 /-- `exec` on the real text: `piece` = the character data of a text event (`[]` otherwise), `buf` = `text_buffer` -/
 def cexec : CProg → Ctx → List Char → List Char → List Bool → St → CR
-  | .skip, _, _, buf, o, st => ⟨st, buf, false, o, []⟩
-  | .ret, _, _, buf, o, st => ⟨st, buf, true, o, []⟩
-  | .addText, _, piece, buf, o, st => ⟨st, buf ++ ' ' :: piece, false, o, []⟩
-  | .clearText, _, _, _, o, st => ⟨st, [], false, o, []⟩
+  | .skip, _, _, buf, o, st => ⟨st, buf, false, o, [], none⟩
+  | .ret, _, _, buf, o, st => ⟨st, buf, true, o, [], none⟩
+  | .addText, _, piece, buf, o, st => ⟨st, buf ++ ' ' :: piece, false, o, [], none⟩
+  | .clearText, _, _, _, o, st => ⟨st, [], false, o, [], none⟩
   | .seq a b, c, piece, buf, o, st =>
       let r := cexec a c piece buf o st
       if r.ret then r else
         let r2 := cexec b c piece r.buf r.o r.st
-        { r2 with tr := r.tr ++ r2.tr }
+        { r2 with tr := r.tr ++ r2.tr, last := r2.last <|> r.last }
   | .setNext, c, _, buf, o, st =>
       let st1 := if c.t = .t_unknown then st.error .unknown_tag else st
-      ⟨{ st1 with state := next st.state c.t }, buf, false, o, []⟩
-  | .setAfter, _, _, buf, o, st => ⟨{ st with state := after st.state }, buf, false, o, []⟩
-  | .err k, _, _, buf, o, st => ⟨st.error k, buf, false, o, []⟩
-  | .noAttrs, c, _, buf, o, st => ⟨(if c.attrsEmpty then st else st.error .attributes), buf, false, o, []⟩
+      ⟨{ st1 with state := next st.state c.t }, buf, false, o, [], none⟩
+  | .setAfter, _, _, buf, o, st => ⟨{ st with state := after st.state }, buf, false, o, [], none⟩
+  | .err k, _, _, buf, o, st => ⟨st.error k, buf, false, o, [], none⟩
+  | .noAttrs, c, _, buf, o, st => ⟨(if c.attrsEmpty then st else st.error .attributes), buf, false, o, [], none⟩
   | .ifNoAttrs a b, c, piece, buf, o, st =>
       if c.attrsEmpty then cexec b c piece buf o st else cexec a c piece buf o (st.error .attributes)
   | .ifHasAttrs a b, c, piece, buf, o, st => if c.attrsEmpty then cexec b c piece buf o st else cexec a c piece buf o st
@@ -113,7 +124,7 @@ def cexec : CProg → Ctx → List Char → List Char → List Bool → St → C
   | .ifData cd a b, c, piece, buf, o, st =>
       let x := condBit cd piece buf o
       let r := if x.1 then cexec a c piece buf x.2 st else cexec b c piece buf x.2 st
-      { r with tr := x.1 :: r.tr }
+      { r with tr := x.1 :: r.tr, last := r.last <|> some cd }
   | .scope a, c, piece, buf, o, st =>
       let r := cexec a c piece buf o st
       { r with ret := false }
